@@ -174,6 +174,22 @@ def one_model(ctx, script, spec, rng, solved):
             return
     if list(m2.status) != ['-'] * n:
         ctx.count('import_status_not_default')
+    # the same round trip for a class with aliases, exported under its alias names
+    if data_cols and 'Alias0' not in data_cols:
+        from fsic.extensions import AliasMixin
+        AM = type('AM', (AliasMixin, Model), {'ALIASES': {'Alias0': data_cols[0], 'Alias1': 'Alias0'}, 'PREFERRED_NAMES': ['Alias1']})
+        try:
+            ma = AM(spec.make(), **{nm: np.asarray(m[nm]).copy() for nm in data_cols})
+            dfa = ma.to_dataframe(use_aliases=True, status=False, iterations=False)
+            m4 = AM.from_dataframe(dfa)
+        except Exception as e:
+            ctx.violation('import-raises', f'alias-named export / from_dataframe on {spec.kind} raised {type(e).__name__}: {e}', case)
+            return
+        ctx.count('imports_compared')
+        for nm in data_cols:
+            if not np.array_equal(np.asarray(m4[nm]), np.asarray(m[nm]), equal_nan=True):
+                ctx.violation('import-values', f'from_dataframe of a table with alias-named columns {list(dfa.columns)}: {nm} = {m4[nm].tolist()} != {m[nm].tolist()}', case)
+                return
     # a variable that is missing (NaN) in every period, and one missing in some: "every value" includes them
     if data_cols and n:
         m.__dict__['_' + data_cols[-1]][:] = np.nan
